@@ -21,6 +21,7 @@ from .. import sweep as S
 from ..catalogue import BY_KEY, OPS
 from ..result import Result
 from . import C03
+from .C04 import TARGETS, dim_calls
 
 import awkward as ak  # noqa: E402
 import vector  # noqa: E402
@@ -57,6 +58,8 @@ def shards(tier):
                     out.append({"mode": mode, "op": op.key, "dimA": dimA, "dimB": dimB})
         for dim in (2, 3, 4):
             out.append({"mode": mode, "op": "__records__", "dimA": dim, "dimB": None})
+            for s_ in L.SYSTEMS[dim]:
+                out.append({"mode": mode, "op": "__conversions__", "dimA": dim, "dimB": None, "sys": list(s_)})
     return out
 
 
@@ -209,6 +212,64 @@ def run_op(res: Result, op, dimA, dimB, tier, mode):
     res.sample({"mode": mode, "op": op.key, "dimA": dimA, "dimB": dimB, "signatures": len(sigs), "layouts": list(LAYOUTS)})
 
 
+class _Conv:
+    """shim with the attributes check_result needs"""
+
+    ret = "vec"
+
+    def __init__(self, key):
+        self.key = key
+
+
+def run_conversions(res: Result, dim, system, tier, mode):
+    """the 40 to_* conversions (with and without imputation keywords), to_VectorND / to_ND and like() on every layout"""
+    vs = [v for v in A.vectors(dim, tier) if C03._well(v)]
+    rows = [tuple(float(x) for x in S.stored(v, system)) for v in vs if S.stored(v, system) is not None][:6]
+    if len(rows) < 6:
+        return
+    others = {2: vector.obj(x=1.0, y=2.0), 3: vector.obj(x=1.0, y=2.0, eta=0.5), 4: vector.obj(rho=1.0, phi=2.0, z=0.5, tau=3.0)}
+    for k, flavor in enumerate(("generic", "momentum")):
+        for layout in LAYOUTS:
+            for extras in ((), ("charge",)):
+                arr = build(system, flavor, rows, layout, extras)
+                calls = []
+                for name, tsys, kwmap in TARGETS:
+                    tdim = len(tsys) + 1
+                    missing = [f for f in L.field_names(tsys)[2:] if (f in ("z", "theta", "eta") and dim < 3) or (f in ("t", "tau") and dim < 4)]
+                    calls.append((name, name, {}))
+                    if missing:
+                        calls.append((name + "(kw)", name, {kwmap[f]: 0.8125 for f in missing}))
+                for label, meth, kws, tdim in dim_calls(dim):
+                    if len(kws) <= 1 or kws in (("z", "t"), ("eta", "mass"), ("theta", "tau")):
+                        calls.append((label, meth, {kw: 1.5 for kw in kws}))
+                for d in (2, 3, 4):
+                    calls.append((f"like({d}D)", "like", {"__other__": others[d]}))
+                for label, meth, kwargs in calls:
+                    res.states += 1
+                    res.evaluations += 1
+                    res.transitions += 1
+                    case = {"mode": mode, "op": "__conversions__", "sys": list(system), "flavor": flavor, "layout": layout, "extras": list(extras), "call": label}
+                    cls = f"{label}|{layout}|{'+'.join(extras) or 'noextra'}|{mode}"
+                    try:
+                        if meth == "like":
+                            r = arr.like(kwargs["__other__"])
+                        else:
+                            r = getattr(arr, meth)(**kwargs)
+                    except Exception as e:  # noqa: BLE001
+                        res.traces += 1
+                        res.violation(f"raises|{cls}|{type(e).__name__}", f"{label} raised {type(e).__name__}: {str(e).strip()[:160]}", case)
+                        continue
+                    if check_result(res, _Conv(label), arr, r, case, cls, extras, 1):
+                        # every coordinate of a present vector must be present (no half-missing vectors)
+                        lst = B.flat_leaves(ak.to_list(r))
+                        half = [x for x in lst if isinstance(x, dict) and any(v is None for k_, v in x.items() if k_ in COORDS) and not all(v is None for k_, v in x.items() if k_ in COORDS)]
+                        if half:
+                            res.violation(f"half_missing|{cls}", f"{label}: result holds vectors with some coordinates missing and others present: {half[0]}", case)
+                        elif not (layout == "flat" and not extras):
+                            res.nontrivial += 1
+    res.sample({"mode": mode, "conversions": f"{dim}D {L.sysname(system)}", "layouts": list(LAYOUTS)})
+
+
 def fclose(p, q, scale=1.0):
     if isinstance(p, bool) or isinstance(q, bool):
         return bool(p) == bool(q)
@@ -300,6 +361,8 @@ def run_shard(shard, tier):
             raise RuntimeError("harness: worker process already has register_awkward() applied")
     if shard["op"] == "__records__":
         run_records(res, shard["dimA"], tier, shard["mode"])
+    elif shard["op"] == "__conversions__":
+        run_conversions(res, shard["dimA"], tuple(shard["sys"]), tier, shard["mode"])
     else:
         run_op(res, BY_KEY[shard["op"]], shard["dimA"], shard["dimB"], tier, shard["mode"])
     return res
@@ -315,6 +378,8 @@ def replay(case):
             vector.register_awkward()
         if case["op"] == "__records__":
             run_records(res, len(case["sys"]) + 1, "thorough", case["mode"])
+        elif case["op"] == "__conversions__":
+            run_conversions(res, len(case["sys"]) + 1, tuple(case["sys"]), "thorough", case["mode"])
         else:
             op = BY_KEY[case["op"]]
             run_op(res, op, len(case["sysA"]) + 1, (len(case["sysB"]) + 1) if case.get("sysB") else None, "thorough", case["mode"])
